@@ -320,3 +320,385 @@ Proof.
   rewrite (rs_fold _ _ _ _ _ _ 0 [] [] false F2). cbn. rewrite app_nil_r, orb_false_r.
   split; [reflexivity|exact G'].
 Qed.
+
+(* ------------------------------------------------------------------ the arguments of a component instance *)
+Lemma map_abs_out_nil v : map (abs_out []) v = v.
+Proof. induction v as [|t r IH]; cbn; [reflexivity|]. rewrite IH. destruct t; reflexivity. Qed.
+
+Lemma comp_args_ev N sc c args :
+  good_env (s_pars sc) ->
+  (forall x, mem x (c_vars c) = true -> lookup x (s_pars sc) = None) ->
+  ev (s_pars sc) [] None (c_vars c) (c_args c) = Some args ->
+  comp_args N sc c = (args, [], false) /\ (forall x, In x (refs_of args) -> mem x (c_vars c) = true).
+Proof.
+  intros G DJ EV. unfold ev in EV.
+  destruct (ev_toks (s_pars sc) [] None (c_vars c) (c_args c)) as [o|] eqn:T; [|discriminate].
+  destruct (shape_ok o); [|discriminate]. inversion EV; subst o. clear EV.
+  destruct (ev_toks_good _ _ _ _ _ _ G (or_intror eq_refl) T) as [_ [RF _]].
+  split; [|exact RF].
+  assert (subst (s_pars sc) (c_vars c) (c_args c) = SOk args) as SB.
+  { rewrite <- (map_abs_out_nil (c_args c)). eapply subst_ev; [exact T| |exact DJ]. reflexivity. }
+  assert (needs_more (c_vars c) args = false) as NM by (apply needs_more_false; exact RF).
+  unfold comp_args. destruct (needs_more (c_vars c) (c_args c)) eqn:NM0.
+  - rewrite SB, NM. reflexivity.
+  - rewrite (subst_closed_id _ _ _ _ NM0 SB). reflexivity.
+Qed.
+
+(* ------------------------------------------------------------------ producers *)
+Lemma spec_producer_spec locs path : forall l,
+  spec_producer locs path = Some l ->
+  In l locs /\ prefix_of l path = true /\
+  forall l', In l' locs -> prefix_of l' path = true -> length l' <= length l.
+Proof.
+  induction locs as [|l0 r IH]; intros l H; cbn [spec_producer] in H; [discriminate|].
+  destruct (prefix_of l0 path) eqn:P.
+  - destruct (spec_producer r path) as [b|] eqn:R.
+    + destruct (IH _ eq_refl) as [A [B C]].
+      destruct (Nat.ltb (length l0) (length b)) eqn:LT; inversion H; subst.
+      * apply Nat.ltb_lt in LT. split; [right; exact A|]. split; [exact B|].
+        intros l' [<-|I] Pp; [lia | apply C; auto].
+      * apply Nat.ltb_ge in LT. split; [left; reflexivity|]. split; [exact P|].
+        intros l' [<-|I] Pp; [lia | specialize (C _ I Pp); lia].
+    + inversion H; subst. split; [left; reflexivity|]. split; [exact P|].
+      intros l' [<-|I] Pp; [lia|]. exfalso. clear IH H.
+      induction r as [|l1 r IHr]; [destruct I|]. cbn [spec_producer] in R. destruct I as [<-|I].
+      * rewrite Pp in R. destruct (spec_producer r path) as [b|]; [destruct (Nat.ltb _ _)|]; discriminate.
+      * destruct (prefix_of l1 path); [destruct (spec_producer r path) as [b|]; [destruct (Nat.ltb _ _)|]; discriminate|].
+        apply IHr; auto.
+  - destruct (IH _ H) as [A [B C]]. split; [right; exact A|]. split; [exact B|].
+    intros l' [<-|I] Pp; [congruence | apply C; auto].
+Qed.
+
+Lemma spec_producer_none locs path :
+  spec_producer locs path = None -> forall l, In l locs -> prefix_of l path = false.
+Proof.
+  induction locs as [|l0 r IH]; intros H l I; [destruct I|]. cbn [spec_producer] in H.
+  destruct (prefix_of l0 path) eqn:P.
+  - destruct (spec_producer r path) as [b|]; [destruct (Nat.ltb _ _)|]; discriminate.
+  - destruct I as [<-|I]; [exact P | apply IH; auto].
+Qed.
+
+Lemma prefix_same_len a : forall b p,
+  prefix_of a p = true -> prefix_of b p = true -> length a = length b -> a = b.
+Proof.
+  induction a as [|x a IH]; intros [|y b] p A B L; cbn in *; try discriminate; [reflexivity|].
+  destruct p as [|z p]; [discriminate|].
+  apply andb_true_iff in A. destruct A as [E1 A]. apply andb_true_iff in B. destruct B as [E2 B].
+  apply String.eqb_eq in E1. apply String.eqb_eq in E2. subst. f_equal. eapply IH; eauto.
+Qed.
+
+(* the producer chosen by the compiler is the producer of the specification *)
+Lemma split_ref_is_spec names path l c :
+  split_ref names path None = Some (l, c) -> spec_producer (map fst names) path = Some l.
+Proof.
+  intros H. destruct (split_ref_spec names path None l c I H) as [A [B [_ [C _]]]].
+  destruct A as [A|A]; [|discriminate].
+  assert (In l (map fst names)) as IL by (apply in_map_iff; exists (l, c); auto).
+  destruct (spec_producer (map fst names) path) as [l2|] eqn:SP.
+  - destruct (spec_producer_spec _ _ _ SP) as [A2 [B2 C2]].
+    apply in_map_iff in A2. destruct A2 as [[l2' c2] [E I2]]. cbn in E. subst l2'.
+    f_equal. eapply prefix_same_len; eauto.
+    specialize (C _ _ I2 B2). specialize (C2 _ IL B). lia.
+  - rewrite (spec_producer_none _ _ SP _ IL) in B. discriminate.
+Qed.
+
+Lemma split_ref_best_some names path : forall x, exists y, split_ref names path (Some x) = Some y.
+Proof.
+  induction names as [|[l0 c0] r IH]; intros x; cbn; [eauto|].
+  destruct (_ && _); apply IH.
+Qed.
+
+Lemma split_ref_some names path : forall l c best,
+  In (l, c) names -> prefix_of l path = true -> 0 < length l ->
+  exists y, split_ref names path best = Some y.
+Proof.
+  induction names as [|[l0 c0] r IH]; intros l c best I P Z; [destruct I|].
+  rewrite split_ref_cons. destruct I as [E|I].
+  - inversion E; subst. rewrite P. destruct best as [[b cb]|]; rewrite andb_true_l.
+    + destruct (Nat.ltb (length b) (length l)); apply split_ref_best_some.
+    + apply Nat.ltb_lt in Z. rewrite Z. apply split_ref_best_some.
+  - destruct (_ && _); eapply IH; eauto.
+Qed.
+
+Lemma lookup_loc_in names : forall l c,
+  NoDup (map fst names) -> In (l, c) names -> lookup_loc l names = Some c.
+Proof.
+  induction names as [|[k v] r IH]; intros l c ND I; [destruct I|]. cbn in *.
+  inversion ND as [|? ? NI ND']; subst. destruct I as [E|I].
+  - inversion E; subst. rewrite strs_eqb_refl. reflexivity.
+  - destruct (strs_eqb k l) eqn:E; [|apply IH; auto].
+    apply strs_eqb_eq in E. subst k. exfalso. apply NI. apply in_map_iff. exists (l, c). auto.
+Qed.
+
+Lemma producer_is_spec names path :
+  NoDup (map fst names) -> (forall l c, In (l, c) names -> l <> []) ->
+  match spec_producer (map fst names) path with
+  | Some l => exists c, lookup_loc l names = Some c /\ split_ref names path None = Some (l, c)
+  | None => split_ref names path None = None
+  end.
+Proof.
+  intros ND NE. destruct (spec_producer (map fst names) path) as [l|] eqn:SP.
+  - destruct (spec_producer_spec _ _ _ SP) as [A [B _]].
+    apply in_map_iff in A. destruct A as [[l' c] [E I0]]. cbn in E. subst l'.
+    assert (0 < length l) as Z by (specialize (NE _ _ I0); destruct l; [congruence|cbn; lia]).
+    destruct (split_ref_some names path l c None I0 B Z) as [[l2 c2] SR].
+    pose proof (split_ref_is_spec _ _ _ _ SR) as SP2. rewrite SP in SP2. inversion SP2; subst l2.
+    exists c2. split; [|exact SR].
+    destruct (producer_longest_prefix _ _ _ _ SR) as [I2 _]. apply lookup_loc_in; auto.
+  - apply no_producer. intros l c I0. eapply spec_producer_none; eauto.
+    apply in_map_iff. exists (l, c). auto.
+Qed.
+
+(* ------------------------------------------------------------------ invariants of the traversal *)
+Section VisitInv.
+  Variable P : dstate -> Prop.
+  Hypothesis P_same : forall st st', P st -> d_scopes st' = d_scopes st ->
+    (exists e, d_errs st' = d_errs st ++ e) ->
+    (d_override st' = d_override st \/ exists x, x <> [] /\ d_override st' = Some x) -> P st'.
+  Hypothesis P_add : forall st st' sc, P st -> find_scope (s_loc sc) (d_scopes st) = None ->
+    d_scopes st' = d_scopes st ++ [sc] -> (exists e, d_errs st' = d_errs st ++ e) ->
+    d_override st' = d_override st -> P st'.
+
+  Lemma visit_preserves : forall fuel N anc parent l dsl t args st,
+    P st -> P (visit fuel N anc parent l dsl t args st).
+  Proof.
+    induction fuel as [|f IH]; intros N anc parent l dsl t args st HP.
+    - cbn. destruct (d_abort st); [exact HP|].
+      eapply P_same; [exact HP|reflexivity|exists []; cbn; rewrite app_nil_r; reflexivity|left; reflexivity].
+    - cbn [visit]. destruct (d_abort st); [exact HP|].
+      match goal with |- P (match ?e with [] => _ | _ :: _ => _ end) => destruct e as [|x xs] eqn:EE end.
+      2:{ eapply P_same; [exact HP|reflexivity|eexists; reflexivity|left; reflexivity]. }
+      apply app_eq_nil in EE. destruct EE as [EE _].
+      assert (find_scope l (d_scopes st) = None) as FS by (destruct (find_scope l (d_scopes st)); [discriminate|reflexivity]).
+      match goal with |- P (match ?e with [] => _ | _ :: _ => _ end) => destruct e as [|y ys] eqn:EU end.
+      2:{ eapply P_same; [exact HP|reflexivity|eexists; reflexivity|right; eexists; split; [|reflexivity]; discriminate]. }
+      match goal with |- P (match t with TW _ => _ | TC _ => ?s1 end) => assert (P s1) as HP1 end.
+      { eapply P_add; [exact HP| |reflexivity|eexists; reflexivity|reflexivity]. exact FS. }
+      destruct t as [w|c]; [|exact HP1].
+      destruct (exec_entries _ _ _ _ _ _ _) as [[errs chs] seen].
+      match goal with |- P (fold_left _ ?o ?s0) => assert (P s0) as HP0; [|generalize dependent s0; generalize o] end.
+      { eapply P_same; [exact HP1|reflexivity|eexists; reflexivity|left; reflexivity]. }
+      intros o. induction o as [|c0 o IHo]; intros s0 HP0; cbn; [exact HP0|].
+      apply IHo. apply IH. exact HP0.
+  Qed.
+End VisitInv.
+
+Lemma find_scope_none l scs : find_scope l scs = None -> ~ In l (map s_loc scs).
+Proof.
+  unfold find_scope. intros H I. apply in_map_iff in I. destruct I as [s [E I]].
+  pose proof (find_none _ _ H _ I) as F. cbn in F. rewrite E, strs_eqb_refl in F. discriminate.
+Qed.
+
+(* the locations of the scopes found by the traversal are pairwise distinct *)
+Lemma visit_nodup fuel N anc parent l dsl t args st :
+  NoDup (map s_loc (d_scopes st)) -> NoDup (map s_loc (d_scopes (visit fuel N anc parent l dsl t args st))).
+Proof.
+  apply (visit_preserves (fun st => NoDup (map s_loc (d_scopes st)))).
+  - intros s s' H E _ _. rewrite E. exact H.
+  - intros s s' sc H F E _ _. rewrite E, map_app. cbn. apply NoDup_snoc; [exact H|].
+    apply find_scope_none. exact F.
+Qed.
+
+Lemma discover_nodup N scs : discover N = Ok scs -> NoDup (map s_loc scs).
+Proof.
+  unfold discover.
+  destruct (dup_template_errs "workflows" [] 0 (map w_name (n_wfs N))) as [e1 seen].
+  destruct (dup_template_errs "components" seen 0 (map c_name (n_comps N))) as [e2 seen'].
+  destruct (get_template N (n_entry N)) as [t|]; [|discriminate].
+  destruct (e1 ++ e2); [|discriminate].
+  match goal with |- context [visit ?f ?n ?a ?p ?l ?d ?t ?ar ?s] =>
+    pose proof (visit_nodup f n a p l d t ar s) as ND; set (fin := visit f n a p l d t ar s) in * end.
+  destruct (d_fuel fin); [discriminate|]. destruct (d_override fin); [discriminate|].
+  destruct (d_errs fin); [|discriminate]. intros H; inversion H; subst. apply ND. constructor.
+Qed.
+
+(* errors are never forgotten *)
+Definition has_err (st : dstate) : Prop :=
+  d_errs st <> [] \/ exists x, x <> [] /\ d_override st = Some x.
+Definition ov_ok (st : dstate) : Prop := forall x, d_override st = Some x -> x <> [].
+
+Lemma visit_has_err fuel N anc parent l dsl t args st :
+  has_err st -> has_err (visit fuel N anc parent l dsl t args st).
+Proof.
+  apply (visit_preserves has_err).
+  - intros s s' [H|[x [NE H]]] _ [e E] O.
+    + left. rewrite E. intros A. apply app_eq_nil in A. destruct A; auto.
+    + destruct O as [O|[y [NY O]]]; right; [exists x; rewrite O; auto | exists y; auto].
+  - intros s s' sc [H|[x [NE H]]] _ _ [e E] O.
+    + left. rewrite E. intros A. apply app_eq_nil in A. destruct A; auto.
+    + right. exists x. rewrite O. auto.
+Qed.
+
+Lemma visit_ov_ok fuel N anc parent l dsl t args st :
+  ov_ok st -> ov_ok (visit fuel N anc parent l dsl t args st).
+Proof.
+  apply (visit_preserves ov_ok).
+  - intros s s' H _ _ [O|[y [NY O]]] x E; rewrite O in E; [eauto | inversion E; subst; exact NY].
+  - intros s s' sc H _ _ _ O x E. rewrite O in E. eauto.
+Qed.
+
+Lemma discover_err_nonempty N e : discover N = Err e -> e <> [].
+Proof.
+  unfold discover.
+  destruct (dup_template_errs "workflows" [] 0 (map w_name (n_wfs N))) as [e1 seen].
+  destruct (dup_template_errs "components" seen 0 (map c_name (n_comps N))) as [e2 seen'].
+  destruct (get_template N (n_entry N)) as [t|].
+  - destruct (e1 ++ e2) eqn:E12; [|intros H; inversion H; discriminate].
+    match goal with |- context [visit ?f ?n ?a ?p ?l ?d ?t ?ar ?s] =>
+      pose proof (visit_ov_ok f n a p l d t ar s) as OV; set (fin := visit f n a p l d t ar s) in * end.
+    destruct (d_fuel fin); [discriminate|]. destruct (d_override fin) eqn:O.
+    + intros H; inversion H; subst. eapply OV; [|exact O]. intros x Hx. discriminate.
+    + destruct (d_errs fin); [discriminate|]. intros H; inversion H; discriminate.
+  - intros H; inversion H. intros A. apply app_eq_nil in A. destruct A as [_ A].
+    apply app_eq_nil in A. destruct A as [_ A]. discriminate.
+Qed.
+
+Definition one_comp (N : ns) (names : list (list string * cid)) (sc : scope) : option (cinst * list loc * bool) :=
+  match s_tmpl sc, lookup_loc (s_loc sc) names with
+  | TC c, Some id =>
+    let '(args, e1, u) := comp_args N sc c in
+    let '(refs, e2) := convert names sc args in
+    Some ({| ci_loc := s_loc sc; ci_id := id; ci_refs := refs;
+             ci_args := String.concat "" (map (render_tok names) args) |}, e1 ++ e2, u)
+  | _, _ => None
+  end.
+
+Definition comps_of (scs0 : list scope) : list scope :=
+  filter (fun s => negb (is_wf_scope s)) (r_scopes (resolve_all scs0)).
+
+Lemma compile_ok N cis : compile N = Ok cis ->
+  exists scs0, discover N = Ok scs0 /\
+    let nst := assign_names (comps_of scs0) in
+    n_nofuel nst = false /\ n_errs nst = [] /\
+    let results := map (one_comp N (n_names nst)) (comps_of scs0) in
+    existsb (fun r => match r with Some (_, _, u) => u | None => true end) results = false /\
+    cis = flat_map (fun r => match r with Some (ci, _, _) => [ci] | None => [] end) results.
+Proof.
+  unfold compile. destruct (discover N) as [scs0| |]; try discriminate.
+  intros H. exists scs0. split; [reflexivity|].
+  destruct (r_unsupp (resolve_all scs0)); [discriminate|].
+  destruct (r_errs (resolve_all scs0)); [|discriminate].
+  fold (comps_of scs0) in H. cbv zeta.
+  destruct (n_nofuel (assign_names (comps_of scs0))); [discriminate|].
+  destruct (n_errs (assign_names (comps_of scs0))); [|discriminate].
+  split; [reflexivity|]. split; [reflexivity|].
+  change (fun sc : scope => match s_tmpl sc with
+     | TW _ => None
+     | TC c => match lookup_loc (s_loc sc) (n_names (assign_names (comps_of scs0))) with
+               | Some id => let '(args, e1, u) := comp_args N sc c in
+                            let '(refs, e2) := convert (n_names (assign_names (comps_of scs0))) sc args in
+                            Some ({| ci_loc := s_loc sc; ci_id := id; ci_refs := refs;
+                                     ci_args := String.concat "" (map (render_tok (n_names (assign_names (comps_of scs0)))) args) |}, e1 ++ e2, u)
+               | None => None end end)
+    with (one_comp N (n_names (assign_names (comps_of scs0)))) in H.
+  destruct (existsb _ _); [discriminate|]. split; [reflexivity|].
+  destruct (flat_map (fun r => match r with Some (_, e, _) => e | None => [] end) _); [|discriminate].
+  inversion H. reflexivity.
+Qed.
+
+Lemma compile_err_nonempty N e : compile N = Err e -> e <> [].
+Proof.
+  unfold compile. destruct (discover N) as [scs0|e0|] eqn:D; try discriminate.
+  - destruct (r_unsupp (resolve_all scs0)); [discriminate|].
+    destruct (r_errs (resolve_all scs0)) eqn:RE; [|intros H; inversion H; discriminate].
+    cbv zeta. destruct (n_nofuel _); [discriminate|].
+    destruct (n_errs _); [|intros H; inversion H; discriminate].
+    destruct (existsb _ _); [discriminate|].
+    destruct (flat_map (fun r => match r with Some (_, e, _) => e | None => [] end) _); [discriminate|].
+    intros H; inversion H; discriminate.
+  - intros H; inversion H; subst. eapply discover_err_nonempty; eauto.
+Qed.
+
+(* ------------------------------------------------------------------ uniqueness, lifted to the output of compile *)
+Lemma replace_scope_locs sc scs : map s_loc (replace_scope sc scs) = map s_loc scs.
+Proof.
+  unfold replace_scope. rewrite map_map. apply map_ext_in. intros s _.
+  destruct (strs_eqb (s_loc s) (s_loc sc)) eqn:E; [|reflexivity].
+  apply strs_eqb_eq in E. auto.
+Qed.
+
+Lemma resolve_scope_locs st sc : map s_loc (r_scopes (resolve_scope st sc)) = map s_loc (r_scopes st).
+Proof.
+  rewrite resolve_scope_unfold. destruct (fold_left _ _ _) as [[pars errs] uns]. cbn.
+  apply replace_scope_locs.
+Qed.
+
+Lemma fold_resolve_locs l : forall st,
+  map s_loc (r_scopes (fold_left resolve_scope l st)) = map s_loc (r_scopes st).
+Proof.
+  induction l as [|sc r IH]; intros st; cbn; [reflexivity|]. rewrite IH. apply resolve_scope_locs.
+Qed.
+
+Lemma resolve_all_locs scs : map s_loc (r_scopes (resolve_all scs)) = map s_loc scs.
+Proof. unfold resolve_all. rewrite !fold_resolve_locs. reflexivity. Qed.
+
+Lemma NoDup_map_filter {A B} (f : A -> B) (p : A -> bool) l :
+  NoDup (map f l) -> NoDup (map f (filter p l)).
+Proof.
+  induction l as [|x r IH]; cbn; intros H; [constructor|].
+  inversion H as [|? ? NI ND]; subst. destruct (p x); cbn; [|auto].
+  constructor; [|auto]. intros I. apply NI. apply in_map_iff in I. destruct I as [y [E I]].
+  apply filter_In in I. destruct I as [I _]. apply in_map_iff. exists y. auto.
+Qed.
+
+Lemma fold_assign_locs comps : forall st,
+  n_errs (fold_left assign_one comps st) = [] -> n_nofuel (fold_left assign_one comps st) = false ->
+  map fst (n_names (fold_left assign_one comps st)) = map fst (n_names st) ++ map s_loc comps
+  /\ n_errs st = [] /\ n_nofuel st = false.
+Proof.
+  induction comps as [|sc r IH]; intros st E F; cbn in *.
+  - rewrite app_nil_r. auto.
+  - destruct (IH _ E F) as [A [B C]]. rewrite A. clear IH A E F.
+    unfold assign_one in *. destruct (pick_name _ _ _ _) as [c counts|counts|]; cbn in *.
+    + rewrite map_app, <- app_assoc. auto.
+    + apply app_eq_nil in B. destruct B as [_ B]. discriminate.
+    + discriminate.
+Qed.
+
+Lemma lookup_loc_self names :
+  NoDup (map fst names) ->
+  map (fun l => lookup_loc l names) (map fst names) = map Some (map snd names).
+Proof.
+  intros ND. rewrite !map_map. apply map_ext_in. intros [l c] I. cbn. apply lookup_loc_in; auto.
+Qed.
+
+Lemma map_some_inj {A} (a : list A) : forall b, map Some a = map Some b -> a = b.
+Proof.
+  induction a as [|x a IH]; intros [|y b] H; cbn in *; try discriminate; [reflexivity|].
+  inversion H; subst. f_equal. auto.
+Qed.
+
+Lemma one_comp_id N names sc ci e u :
+  one_comp N names sc = Some (ci, e, u) -> ci_loc ci = s_loc sc /\ lookup_loc (s_loc sc) names = Some (ci_id ci).
+Proof.
+  unfold one_comp. destruct (s_tmpl sc) as [w|c]; [discriminate|].
+  destruct (lookup_loc (s_loc sc) names) as [id|]; [|discriminate].
+  destruct (comp_args N sc c) as [[args e1] u1]. destruct (convert names sc args) as [refs e2].
+  intros H; inversion H; subst. cbn. auto.
+Qed.
+
+Lemma results_ids N names : forall comps,
+  existsb (fun r => match r with Some (_, _, u) => u | None => true end) (map (one_comp N names) comps) = false ->
+  let cis := flat_map (fun r => match r with Some (ci, _, _) => [ci] | None => [] end) (map (one_comp N names) comps) in
+  map ci_loc cis = map s_loc comps /\
+  map Some (map ci_id cis) = map (fun l => lookup_loc l names) (map s_loc comps).
+Proof.
+  induction comps as [|sc r IH]; intros H; cbn in *; [auto|].
+  apply orb_false_iff in H. destruct H as [H1 H2]. destruct (IH H2) as [A B].
+  destruct (one_comp N names sc) as [[[ci e] u]|] eqn:O; [|discriminate].
+  destruct (one_comp_id _ _ _ _ _ _ O) as [L I]. cbn. rewrite A, B, L, I. auto.
+Qed.
+
+Lemma compile_unique N cis :
+  compile N = Ok cis -> NoDup (map ci_id cis) /\ NoDup (map ci_loc cis).
+Proof.
+  intros H. destruct (compile_ok _ _ H) as [scs0 [D [NF [NE [EX ->]]]]].
+  pose proof (discover_nodup _ _ D) as ND0.
+  assert (NoDup (map s_loc (comps_of scs0))) as ND.
+  { unfold comps_of. apply NoDup_map_filter. rewrite resolve_all_locs. exact ND0. }
+  destruct (results_ids N _ _ EX) as [A B].
+  unfold assign_names in *. destruct (fold_assign_locs _ _ NE NF) as [LC _]. cbn in LC.
+  split; [|rewrite A; exact ND].
+  rewrite <- LC in B. rewrite lookup_loc_self in B by (rewrite LC; exact ND).
+  apply map_some_inj in B. rewrite B. apply names_unique.
+Qed.
